@@ -73,7 +73,7 @@ PROPERTIES = {
     'C13': {'obligations': ['O1.6', 'O4.3', 'O13.1', 'O1.1']},
     'C14': {'obligations': ['O14.1']},
     'C02': {'obligations': ['O12.3']},
-    'C15': {'obligations': ['O15.5', 'O15.1', 'O15.2', 'O15.3']},
+    'C15': {'obligations': ['O15.5', 'O4.3', 'O15.1', 'O15.2', 'O15.3']},
     'C16': {'obligations': ['O12.3', 'O16.2']},
     'C03': {'obligations': ['O1.6', 'O3.2a', 'O3.2b']},
     'C04': {'obligations': ['O4.1', 'O4.3']},
